@@ -64,7 +64,7 @@ func (s Spread) Clamp(x float64) float64 {
 			if int(x)&1 == 0 {
 				return x - math.Floor(x)
 			}
-			return math.Ceil(x) - x
+			return 1 - (x - math.Floor(x))
 		case SpreadRepeat:
 			return x - math.Floor(x)
 		}
@@ -78,7 +78,7 @@ func (s Spread) Clamp(x float64) float64 {
 		if int(x)&1 == 0 {
 			return x - math.Floor(x)
 		}
-		return math.Ceil(x) - x
+		return 1 - (x - math.Floor(x))
 	case SpreadRepeat:
 		return x - math.Floor(x)
 	}
